@@ -61,6 +61,7 @@ def run():
         classify_diff(chk, "C11", byid[tid], clauses, DIFF_CLAUSES)
     # ---- diffs embedded in merge decisions ------------------------------------------------------
     triples = corp.triples(n_enum=360 if chk.quick else 7000, n_random=100 if chk.quick else 3000, salt="c11t")
+    triples += mergefam.sweep(chk, "embedded", 60 if chk.quick else 600)
     cli = mergefam.cli_strategy_tuples()
     tasks = []
     for name, b, l, rr, info in triples:
